@@ -13,6 +13,12 @@ from . import gen, lsim
 PID = 'C01'
 
 
+def driven_port_circuit():
+    """Deterministic case of the known finding DrivenPortsAreSignals:SimOps: output z is also read by the inverter."""
+    from kyupy import bench
+    return bench.parse('input(a,b) output(z,y) z=and(a,b) y=not(z)')
+
+
 def make_circuits(ck, rnd, n):
     cs = [gen.one_of_each('v'), gen.one_of_each('b')]
     # every primitive at every connected-pin pattern (arity rule, interior open pins)
@@ -30,6 +36,7 @@ def make_circuits(ck, rnd, n):
                 impls.append(impl)
     for impl in rnd.sample(impls, min(len(impls), ck.pick(30, 200))):
         cs.append(impl.copy())
+    cs.append(driven_port_circuit())
     return cs
 
 
@@ -182,6 +189,11 @@ def judge(ck, recs, meta, pids):
         if pid not in pids:
             continue
         mt = meta[tid - 1]
+        if clause == 'DrivenPortsAreSignals':
+            # one call site (SimOps treats every port with readers as a source), whatever the circuit: DESIGN 11.6
+            ck.violation('DrivenPortsAreSignals:SimOps', 'a port that has a driver feeds its readers from the assigned value', dict(kind='logic', input=mt, lane=p, clause=clause))
+            ck.count('records-with-a-driven-port-read-internally-judged-plainly')
+            continue
         ck.violation('%s:%s:m%d:r%ds%dc%d' % (clause, gen.digest(mt['circuit']), mt['m'], mt['reuse'], mt['strip'], mt['cb']),
                      '%s fails in lane %d (m=%d, c_reuse=%s, strip_forks=%s, callback path=%s)%s' % (
                          clause, p, mt['m'], mt['reuse'], mt['strip'], mt['cb'], ' ' + recs[tid - 1].get('err', '') if recs[tid - 1]['raised'] else ''),
